@@ -86,6 +86,17 @@ def check_name(ctx, comps):
             ctx.event('uri')
         except Exception as e:   # noqa
             bad(f'uri-raises:{type(e).__name__}@{raising_site(e)[0]}', f'URI conversion raised {e!r}')
+    elif all(canonical_number(c) or len(rc.comp_parts(c)[1]) not in (1, 2, 4, 8) for c in comps):
+        # typed components whose value is no NonNegativeInteger at all (3, 5, 0, 9, 2000 octets): there is no number to print -
+        # whatever text to_str chooses, it is produced without failing and denotes this name
+        try:
+            u = Name.to_str(comps)
+            back = as_list(Name.from_str(u))
+            ctx.event('uri-of-typed-component-that-is-no-number')
+            if back != comps:
+                bad('uri-roundtrip:typed-component-that-is-no-number', 'from_str(to_str(n)) != n for a typed component whose value has no NonNegativeInteger width', uri=u[:200], got=[c.hex()[:80] for c in back])
+        except Exception as e:   # noqa
+            bad(f'uri-raises:{type(e).__name__}@{raising_site(e)[0]}:typed-component-that-is-no-number', f'URI conversion raised {e!r}'[:300])
     else:
         ctx.event('uri-skipped-noncanonical-number')
 
@@ -414,6 +425,7 @@ def run(ctx):
                 corpus.append([rc.comp(t, bytes([b]))])
         ctx.exhaustive = False
         ctx.extra['exhaustive_subspace'] = 'all 256 one-byte values x all listed component types (shard 0)'
+    corpus += [[rc.comp(50, b'\x01' * 2000)], [rc.comp(8, b'a'), rc.comp(54, b'\x01\x02\x03')], [rc.comp(58, b'')], [rc.comp(52, bytes(9))], [rc.comp(56, b'\x07' * 1900), rc.comp(50, b'\x00')]]
     for comps in corpus:
         check_name(ctx, comps)
         if len(rc.enc_name(comps)) < 1000:
@@ -485,7 +497,7 @@ def run(ctx):
         ctx.case(None, nontrivial=False, count=len(pool) ** 2)
         ctx.extra['all_pairs_pool'] = len(pool)
     for k in ('wire', 'canonical-uri', 'uri', 'normalize', 'is-prefix-true', 'is-prefix-false', 'name-order',
-              'component-order', 'history', 'history-mutable-result-edited', 'same-list-object-converted-again-after-an-in-place-edit', 'is-prefix-both-uris-other-spelling'):
+              'component-order', 'history', 'history-mutable-result-edited', 'uri-of-typed-component-that-is-no-number', 'same-list-object-converted-again-after-an-in-place-edit', 'is-prefix-both-uris-other-spelling'):
         ctx.need_event(k)
     ctx.assumptions = ['URI convention is the one python-ndn documents (no extra-period rule; = and % escaped)',
                        'shorthand URI round trip is demanded only for canonically encoded typed numbers']
